@@ -15,6 +15,7 @@ import (
 	"strings"
 
 	"github.com/fatedier/frp/pkg/msg"
+	"github.com/fatedier/frp/pkg/nathole"
 	"github.com/fatedier/frp/pkg/proto/udp"
 
 	"verif/mc/drv"
@@ -411,6 +412,52 @@ func main() {
 				if e := checkFrame(b, l); e != "" {
 					c.Violate("frame", fmt.Sprintf("frame:%d:%d:%.20q", typ, l, body), fmt.Sprintf("type %d declared length %d body %.30q: %s", typ, l, body, e), b)
 				}
+			}
+		}
+	}
+	// the datagram form of the codec (hole punching): a frame encrypted with the proxy's key. Round trip, and totality
+	// over every length 0..64 of four fillings, every truncation of a valid datagram and every single-byte corruption.
+	{
+		key := []byte("datagram-key")
+		sid := &msg.NatHoleSid{TransactionID: "t-1", Sid: "sid-1", Response: true, Nonce: "nonce"}
+		enc, err := nathole.EncodeMessage(sid, key)
+		if err != nil {
+			c.Violate("datagram", "datagram:encode", "a NatHoleSid message cannot be encoded as a datagram: "+err.Error(), nil)
+		} else {
+			var back msg.NatHoleSid
+			if err := nathole.DecodeMessageInto(enc, key, &back); err != nil || !reflect.DeepEqual(&back, sid) {
+				c.Violate("datagram", "datagram:roundtrip", fmt.Sprintf("datagram round trip: %+v -> %+v (err %v)", sid, back, err), nil)
+			}
+			var inputs [][]byte
+			for l := 0; l <= 64; l++ {
+				z := make([]byte, l)
+				f := bytes.Repeat([]byte{0xff}, l)
+				inc := make([]byte, l)
+				for i := range inc {
+					inc[i] = byte(i*37 + 11)
+				}
+				inputs = append(inputs, z, f, inc)
+			}
+			for l := 0; l <= len(enc); l++ {
+				inputs = append(inputs, append([]byte{}, enc[:l]...))
+			}
+			for i := range enc {
+				x := append([]byte{}, enc...)
+				x[i] ^= 0x5a
+				inputs = append(inputs, x)
+			}
+			for _, in := range inputs {
+				c.Count(fmt.Sprintf("datagram:%d:%x", len(in), in))
+				func() {
+					defer func() {
+						if r := recover(); r != nil {
+							c.Violate("datagram", fmt.Sprintf("datagram:panic:%d", len(in)), fmt.Sprintf("decoding a %d-byte datagram (%x) panics: %v", len(in), in, r), in)
+						}
+					}()
+					var m msg.NatHoleSid
+					_ = nathole.DecodeMessageInto(in, key, &m)
+					_ = nathole.DecodeMessageInto(in, []byte("another-key"), &m)
+				}()
 			}
 		}
 	}
